@@ -3,6 +3,6 @@ from .worldcommon import ASSUME, TRUSTED
 
 SPEC = dict(id="C04", kind="world", monitor="quiescent_ok",
     coq_targets=["theories/Props/C04.vo", "theories/Corr/WorldAll.vo"],
-    level_text='Per-reconcile progress theorem for the trial controller (C04_trial_progress) and no-write-when-unchanged; the run-level statement (quiescent and environment done implies verdict; no write in a further round) is decided by the monitor on histories that the harness drains to quiescence over the real reconcilers, with the model compared step by step',
+    level_text='State-level theorem C04_no_wedge over the joint controller model: in every state satisfying the inductive invariant (all reachable states do) with synced caches, no write planned by any reconcile (every trial key, every correct service answer), jobs finished, metrics in the DB and deployment not pending, an experiment with maxTrialCount carries a verdict (two stated hypotheses: algorithm names unique; suggestion not Succeeded while the experiment has no verdict); C04_no_hot_loop: a further reconcile in such a state attempts no write; C04_trial_progress per reconcile. Histories drained to quiescence over the three real reconcilers are checked by the same monitor with the model compared step by step',
     level_note="PARTIAL: the state-level theorem 'quiescent -> completed' over the whole model is not yet proved; stated in DESIGN.md section 6 C04" + "; " + "; ".join(ASSUME),
     assumptions=ASSUME, trusted_base=TRUSTED)
